@@ -9,9 +9,12 @@ package pcache
 
 import (
 	"fmt"
+	"math/rand"
 	"path/filepath"
 	"sort"
 	"strings"
+	"sync"
+	"sync/atomic"
 	"testing"
 
 	"github.com/VKCOM/statshouse/internal/verifkit"
@@ -252,6 +255,93 @@ func verifC21RandomOps(rnd interface{ Intn(int) int }, n int) ([]verifC21Op, int
 	return ops, sizes[2+rnd.Intn(len(sizes)-2)], ttls[rnd.Intn(len(ttls))]
 }
 
+// runConcurrent: getters race with one goroutine that adds, expires and changes limits.  Only
+// unordered facts are recorded (see TrOffer/TrGetC/TrSync of the trace specification).
+func (r *verifC21Runner) runConcurrent(seed int64, iters int) (err error) {
+	defer func() {
+		if p := recover(); p != nil {
+			err = fmt.Errorf("panic in MappingsCache: %v", p)
+		}
+	}()
+	fp := []byte{}
+	r.mode = 0
+	c, _ := r.newCache(&fp, 200, 5)
+	r.tr.Emit("Reset", "maxSize", 200, "ttl", 5, "mode", 2)
+	strs := []string{"a", "b", "cc", "dddd", "eeeeeeee", "ffffffffffffffff", "g0", "g1", "g2", "g3"}
+	var all []verifC21Pair
+	for i, s := range strs {
+		all = append(all, verifC21Pair{S: s, V: int32(200 + i)})
+	}
+	r.tr.Emit("Offer", "pairs", all)
+	type got struct {
+		s  string
+		ok bool
+		v  int32
+	}
+	const getters = 4
+	results := make([][]got, getters)
+	var wg sync.WaitGroup
+	var stop atomic.Bool
+	var clock atomic.Uint32
+	clock.Store(1000)
+	for g := 0; g < getters; g++ {
+		wg.Add(1)
+		go func(g int) {
+			defer wg.Done()
+			rnd := rand.New(rand.NewSource(seed*31 + int64(g)))
+			for n := 0; !stop.Load() || n < 50; n++ {
+				s := strs[rnd.Intn(len(strs))]
+				var v int32
+				var ok bool
+				if n%2 == 0 {
+					v, ok = c.GetValue(clock.Load()+uint32(rnd.Intn(3)), s)
+				} else {
+					v, ok = c.GetValueBytes(clock.Load()+uint32(rnd.Intn(3)), []byte(s))
+				}
+				if len(results[g]) < 40 || !ok && len(results[g]) < 60 || ok && v != int32(200+verifC21Index(strs, s)) {
+					results[g] = append(results[g], got{s, ok, v})
+				}
+			}
+		}(g)
+	}
+	rnd := rand.New(rand.NewSource(seed))
+	for i := 0; i < iters; i++ {
+		now := clock.Add(uint32(rnd.Intn(3)))
+		switch rnd.Intn(8) {
+		case 0:
+			c.RemoveByTTL(rnd.Intn(5), now)
+		case 1:
+			c.SetSizeTTL([]int64{70, 140, 200, 400}[rnd.Intn(4)], []int{0, 3, 5}[rnd.Intn(3)])
+		default:
+			k := 1 + rnd.Intn(3)
+			arg := make([]MappingPair, 0, k)
+			for j := 0; j < k; j++ {
+				p := all[rnd.Intn(len(all))]
+				arg = append(arg, MappingPair{Str: p.S, Value: p.V})
+			}
+			c.AddValues(now, arg)
+		}
+	}
+	stop.Store(true)
+	wg.Wait()
+	for _, rs := range results {
+		for _, x := range rs {
+			r.tr.Emit("GetC", "s", x.s, "ok", x.ok, "v", x.v)
+		}
+	}
+	r.tr.Emit("Sync", "post", verifC21Post(c))
+	return nil
+}
+
+func verifC21Index(strs []string, s string) int {
+	for i, x := range strs {
+		if x == s {
+			return i
+		}
+	}
+	return -1
+}
+
 func TestVerifC21Mappings(t *testing.T) {
 	verifkit.Gate(t)
 	res := verifkit.NewResult()
@@ -287,6 +377,15 @@ func TestVerifC21Mappings(t *testing.T) {
 		}
 		res.Replayed++
 		res.Steps += len(ops)
+	}
+	nconc := verifkit.EnvInt("VERIF_NCONCURRENT", 0)
+	for n := 0; n < nconc; n++ {
+		if err := r.runConcurrent(verifkit.Seed()*1000+int64(n), 300); err != nil {
+			fail(nil, err)
+		}
+		res.Replayed++
+		res.Count("concurrent_runs", 1)
+		res.Steps += 300
 	}
 	out := filepath.Join(verifkit.TmpDir(t, "c21-"), "trace.ndjson")
 	if err := r.tr.WriteFile(out); err != nil {
